@@ -974,6 +974,12 @@ class Facts:
                             # flag = helper(..): what decides the value the
                             # helper returns
                             v = getattr(d, 'value', None)
+                            # flag = X if test else Y: the test decides
+                            if v is not None:
+                                for ie in ast.walk(v):
+                                    if isinstance(ie, ast.IfExp):
+                                        out |= self.flow.atoms(ie.test, fn,
+                                                               bind)
                             if isinstance(v, ast.Call) and _depth < 2:
                                 callee = self.flow.resolve_call(v, fn)
                                 if callee is not None and callee is not fn:
